@@ -112,6 +112,8 @@ class QFact:
 
 
 FLATTEN = [False]
+WITNESSES = set()
+_KEEP = []
 
 
 def _flatten_forall(f, depth=0):
@@ -170,6 +172,8 @@ def to_facts(f, out_qf, out_q):
         out_q.append(_flatten_forall(f))
     elif isinstance(f, FExists):
         w = fresh('ex')
+        WITNESSES.add(w.get_id())
+        _KEEP.append(w)
         to_facts(f.fn(w), out_qf, out_q)
     else:
         raise TypeError('to_facts: %r' % (f,))
@@ -201,7 +205,13 @@ def to_goals(f, hyps=None):
         return res
     if isinstance(f, FExists):
         if not f.witnesses:
-            raise TypeError('existential goal without witness')
+            # refutation form: assume no value satisfies the body (a quantified hypothesis) and derive a contradiction
+            def nobody(c, f=f):
+                b = f.fn(c)
+                if not is_qf(b):
+                    raise TypeError('existential goal with quantified body')
+                return z3.Not(zbool(b))
+            return [(hyps + [QFact(1, nobody, 'negated existential goal')], z3.BoolVal(False), [])]
         alts = []
         for w in f.witnesses:
             b = f.fn(w)
@@ -417,10 +427,36 @@ def match_patterns(qf, pats, idx, apps, by_arr, singles, cap=400, priority=None)
             full[tuple(b[v].get_id() for v in range(qf.arity))] = tuple(b[v] for v in range(qf.arity))
         for v, t in b.items():
             per_var.setdefault(v, {})[t.get_id()] = t
+    prio = priority or {}
     if qf.arity > 1:
+        # joint matches first: a trigger that binds several variables at once (f(i, j, ..)) keeps its tuples together; groups of
+        # variables bound by different triggers are combined, goal terms and existential witnesses first
+        groups = {}
+        for b in partial.values():
+            groups.setdefault(frozenset(b.keys()), []).append(b)
+        chosen, covered = [], set()
+        for vs in sorted(groups, key=lambda vs: -len(vs)):
+            if len(vs) < qf.arity and not (vs & covered):
+                chosen.append(vs)
+                covered |= vs
+        if chosen and any(len(vs) > 1 for vs in chosen):
+            glists = [groups[vs] for vs in chosen]
+            for v in range(qf.arity):
+                if v not in covered:
+                    glists.append([{v: t} for t in singles.values()])
+            per_g = max(2, int(round(cap ** (1.0 / len(glists)))))
+
+            def rank(b):
+                return sum(0 if (t.get_id() in prio or t.get_id() in WITNESSES) else 1 for t in b.values())
+            glists = [sorted(g, key=rank)[:per_g] for g in glists]
+            for combo in itertools.product(*glists):
+                m = {}
+                for b in combo:
+                    m.update(b)
+                tup = tuple(m[v] for v in range(qf.arity))
+                full[tuple(t.get_id() for t in tup)] = tup
         lists = []
         per = max(2, int(round(cap ** (1.0 / qf.arity))))
-        prio = priority or {}
         for v in range(qf.arity):
             if v in per_var:
                 l = list(per_var[v].values())
@@ -529,6 +565,25 @@ def _check_deadline():
         raise InstTimeout()
 
 
+def _has_exists(qfct):
+    r = getattr(qfct, '_has_exists', None)
+    if r is None:
+        def walk(f):
+            if isinstance(f, FExists):
+                return True
+            if isinstance(f, FAnd):
+                return any(walk(p) for p in f.parts)
+            if isinstance(f, FImp):
+                return walk(f.body)
+            return False
+        try:
+            r = walk(qfct.fn(*[fresh('probe') for _ in range(qfct.arity)]))
+        except Exception:
+            r = False
+        qfct._has_exists = r
+    return r
+
+
 def instantiate(ground, qfacts, registry, rounds=2, hints=(), max_insts=6000, use_sums=True, goal=None):
     """ground: list of qf z3 Bool (hyps + negated goal). Returns list of added qf facts."""
     added = []
@@ -614,7 +669,10 @@ def instantiate(ground, qfacts, registry, rounds=2, hints=(), max_insts=6000, us
                 cands = match_patterns(qfct, pats, idx, apps, by_arr, singles, priority=priority) if pats else None
                 if cands is None and not pats:
                     # no trigger in the body (pure arithmetic fact): all index terms / hints
-                    if qfct.arity == 1:
+                    if qfct.arity == 1 and _has_exists(qfct):
+                        # every instance creates a fresh witness: only at the terms of the goal (and the explicit hints)
+                        cands = [(t,) for t in priority.values() if t.sort() == z3.IntSort()]
+                    elif qfct.arity == 1:
                         cands = [(t,) for t in singles.values()]
                     else:
                         cands = list(idx.get(qfct.arity, {}).values())
